@@ -91,12 +91,14 @@ HIST_PLAN = {
                         "rejected_calls_followed_by_resize_making_the_index_valid": 3000}),
     "C05": dict(quick=12000, thorough=360000,
                 rule="random histories on DirectedWeightedGraph and UndirectedWeightedGraph; two weight alphabets: exact dyadic k/8 (total weight must "
-                     "match the model sum EXACTLY) and rounding (random doubles, tolerance 1e-9*(1+sum|w| ever added)); getEdgeWeight (both modes, both "
+                     "match the model sum EXACTLY; half of these histories are scaled as a whole by 2^-67, 2^-300, 2^-1000 or 2^900, which keeps every weight and "
+                     "partial sum exactly representable) and rounding (random doubles, tolerance 1e-9*(1+sum|w| ever added)); getEdgeWeight (both modes, both "
                      "orientations), getTotalWeight, getWeightMatrix and the structural observers compared after every call; one rounding-mode history in seven draws a third "
                      "of its weights from +-(0.5..0.99)*DBL_MAX while the sum of the weights present stays a finite double at every step; rejected calls as in C01",
                 floors={"calls_total": 40000, "calls_setEdgeWeight": 2000, "total_weight_exact_comparisons": 10000, "total_weight_tolerance_comparisons": 10000,
                         "calls_clearEdges": 50, "calls_removeVertexFromEdgeList": 300, "rejected_calls_inside_histories": 4000,
-                        "rejected_calls_followed_by_resize_making_the_index_valid": 1500, "calls_with_a_weight_above_half_of_DBL_MAX": 1500}),
+                        "rejected_calls_followed_by_resize_making_the_index_valid": 1500, "calls_with_a_weight_above_half_of_DBL_MAX": 1500,
+                        "exact_histories_scaled_by_a_power_of_two": 1500}),
     "C06": dict(quick=54000, thorough=1800000,
                 rule="pairs of histories: A = random history; B = different random history followed by a shuffled repair sequence reaching the same "
                      "denoted graph; C = straight build in random order/orientation; copies by construction and assignment; a copy perturbed by exactly one "
